@@ -461,7 +461,7 @@ def same_sizes(m, o):
 
 
 # ------------------------------------------------------------------------------------------------ E
-DIMS = [(640, 360), (1920, 1080), (None, 360), (640, None), (None, None), (3, 7), (0, 0), (1280.5, 720)]
+DIMS = [(640, 360), (1920, 1080), (None, 360), (640, None), (None, None), (3, 7), (0, 0), (1280.5, 720), (600, 600), (360, 640)]
 REL = Fraction(1, 10**9)
 
 
@@ -589,14 +589,250 @@ def stream_fresh(ctx, res):
 
 
 # ------------------------------------------------------------------------------------------------
+# ------------------------------------------------------------------------------------------------ F
+def attr_components(kind, o):
+    if kind == 0:
+        return [o.x, o.y]
+    if kind == 1:
+        return [o.horizontal, o.vertical]
+    return [o.before, o.after, o.start, o.end]
+
+
+ATTR_PRINT_ORDER = {0: [0, 1], 1: [0, 1], 2: [0, 3, 1, 2]}     # Padding prints before, end, after, start (TTML order)
+
+
+def attr_case(kind, val):
+    """to_xml_attribute of a Point / Stretch / Padding, from_xml_attribute of the result, to_xml_attribute again"""
+    obj = [geom.mk_point, geom.mk_stretch, geom.mk_padding][kind](val)
+    cls = [Point, Stretch, Padding][kind]
+    comps = attr_components(kind, obj)
+    p = impl.call(obj.to_xml_attribute)
+    if isinstance(p, Err):
+        return comps, p, None, None
+    b = impl.call(cls.from_xml_attribute, p.v)
+    if isinstance(b, Err):
+        return comps, p, b, None
+    return comps, p, Ok(attr_components(kind, b.v)), impl.call(b.v.to_xml_attribute)
+
+
+def attr_violation(kind, comps, p, b, rp):
+    """statement: printing rounds to two decimals, re-parsing a printed value reproduces it, TTML order -> kind or None"""
+    if isinstance(p, Err):
+        return "attr-print-raises"
+    if p.v != " ".join(str(comps[i]) for i in ATTR_PRINT_ORDER[kind]):
+        return "attr-print-order"
+    if isinstance(b, Err):
+        return "attr-reparse-raises"
+    for a, z in zip(comps, b.v):
+        va, vz = exact(a.value), exact(z.value)
+        if a.unit != z.unit or abs(va - vz) > Fraction(1, 200) + abs(va) * Fraction(1, 2**51):
+            return "attr-reparse"
+    if not (isinstance(rp, Ok) and rp.v == p.v):
+        return "attr-reprint"
+    return None
+
+
+def stream_attr_print(ctx, res):
+    """wave 7: Point / Stretch / Padding.to_xml_attribute and from_xml_attribute of the printed attribute, against the model
+    (request 1820: point_attr / stretch_attr / padding_attr and point_of_attr / stretch_of_attr / padding_from_attr)"""
+    rng = ctx.rng
+    cases = []
+    sz = lambda: geom.rand_size(rng, wild=rng.random() < 0.3)  # noqa: E731
+    # every pair / quadruple of distinct units once, then random values
+    for u in range(5):
+        for v in range(5):
+            cases.append((rng.choice([0, 1]), ((1.005 + u, u), (2.675 + v, v))))
+    cases.append((2, ((1, 0), (2, 1), (3, 2), (4, 3))))
+    for mask in range(16):
+        cases.append((2, tuple(None if mask >> i & 1 else (i + 1.125, 2) for i in range(4))))
+    for _ in range(ctx.n(1500, 30000)):
+        kind = rng.choice([0, 1, 2, 2])
+        if kind == 2:
+            cases.append((2, tuple(None if rng.random() < 0.1 else sz() for _ in range(4))))
+        else:
+            cases.append((kind, (sz(), sz())))
+    reqs = [(1820, [k, geom.a_padding_w(v) if k == 2 else geom.a_pair_w(v)]) for k, v in cases]
+    hist = {}
+    for (kind, val), m in zip(cases, oracle_batch(reqs)):
+        res["evaluations"] += 1
+        comps, p, b, rp = attr_case(kind, val)
+        name = ["Point", "Stretch", "Padding"][kind]
+        bad = attr_violation(kind, comps, p, b, rp)
+        if bad:
+            res["violations"].append({"kind": bad, "replay": "attr", "input": [kind, val], "impl_obs": repr((p, b, rp))[:400],
+                                      "what": f"{name}{val!r}: to_xml_attribute -> {p!r}, from_xml_attribute of it -> "
+                                              f"{b!r}, printed again -> {rp!r}: not 'before end after start' / 'x y' in two "
+                                              f"decimals that re-parse to the value within 1/200 and print the same"})
+            continue
+        hist[name] = hist.get(name, 0) + 1
+        if any(exact(c.value) * 100 % 1 for c in comps):
+            res["nontrivial"].add(("attr", kind, repr(val)))
+        mstr, mres = m
+        mm = r_result(mres, lambda v: [[Fraction(x[0][0], x[0][1]), x[1]] for x in v])
+        if mstr != p.v or not same_sizes(mm, Ok([geom.w_size(z) for z in b.v])):
+            res["disagreements"].append({"stream": "attr-print", "input": [kind, repr(val)], "impl": repr((p.v, b))[:300],
+                                         "model": repr((mstr, mm))[:300]})
+    res["distribution"]["attribute_print_reparse_cases(to_xml_attribute -> from_xml_attribute -> to_xml_attribute)"] = hist
+
+
+# ------------------------------------------------------------------------------------------------ G
+def vh_receiver(kind, x):
+    return {"size": geom.mk_size, "point": geom.mk_point, "stretch": geom.mk_stretch, "padding": geom.mk_padding,
+            "layout": geom.mk_layout}[kind](x)
+
+
+def vh_call(kind, x, w, h, horiz=None):
+    """one relativization of a fresh receiver -> (observation for the Coq oracle, oracle request, snapshot of the result)"""
+    oq = lambda v: None if v is None else Some(exact(v))  # noqa: E731
+    obj = vh_receiver(kind, x)
+    if kind == "size":
+        d = w if horiz else h
+        r = impl.call(lambda: obj.as_percentage_of(video_width=d if horiz else None, video_height=None if horiz else d))
+        o = Ok(geom.w_size(r.v)) if isinstance(r, Ok) else r
+        return o, (1301, [geom.w_size(obj), horiz, oq(d), o]), (geom.value_snap(r.v) if isinstance(r, Ok) else r)
+    r = impl.call(lambda: obj.as_percentage_of(w, h))
+    wrap = {"point": lambda v: Layout(origin=v), "stretch": lambda v: Layout(extent=v), "padding": lambda v: Layout(padding=v),
+            "layout": lambda v: v}[kind]
+    o = geom.res_layout(Ok(wrap(r.v)) if isinstance(r, Ok) else r)
+    return o, (1304, [geom.w_layout(wrap(obj)), oq(w), oq(h), o]), (geom.value_snap(r.v) if isinstance(r, Ok) else r)
+
+
+def value_history_cases(rng, n_random):
+    """(kind, value, w, h, horiz): equal Sizes against video_width=N and then video_height=N with the SAME N, both orders
+    (each order is the first use of its value); composites on square videos and on pairs of videos where the width of one
+    is the height of the next; then random values over the same video sizes"""
+    cases = []
+    k = 0
+    for u in range(5):
+        for N in (600, 360, 15, 32):
+            for rep in range(2):
+                v = 2 + k / 64.0                      # a value not used anywhere else in the run
+                k += 1
+                order = (True, False) if rep == 0 else (False, True)
+                for horiz in order:
+                    cases.append(("size", (v, u), N, N, horiz))
+    for u in range(5):
+        s = (2, u)
+        for (w, h) in ((600, 600), (640, 360), (360, 640), (15, 15), (32, 32)):
+            cases.append(("point", (s, s), w, h, None))
+            cases.append(("stretch", (s, s), w, h, None))
+            cases.append(("padding", (s, s, s, s), w, h, None))
+            cases.append(("layout", ((s, s), (s, s), (s, s, s, s), (0, 0), None), w, h, None))
+    dims = [(600, 600), (640, 360), (360, 640), (360, 360), (1080, 1920), (1920, 1080), (15, 32), (32, 15), (None, 600), (600, None)]
+    for _ in range(n_random):
+        kind = rng.choice(["size", "size", "point", "stretch", "padding", "layout"])
+        sz = lambda: (rng.choice([1, 2, 2.5, 8, 12, 33.33]), rng.randrange(5))  # noqa: E731  (few values: equal Sizes recur)
+        w, h = rng.choice(dims)
+        if kind == "size":
+            cases.append(("size", sz(), w, h, rng.random() < 0.5))
+        elif kind in ("point", "stretch"):
+            cases.append((kind, (sz(), sz()), w, h, None))
+        elif kind == "padding":
+            cases.append((kind, (sz(), sz(), sz(), sz()), w, h, None))
+        else:
+            cases.append((kind, ((sz(), sz()), (sz(), sz()) if rng.random() < 0.5 else None,
+                                 (sz(), sz(), sz(), sz()) if rng.random() < 0.5 else None, None, None), w, h, None))
+    return cases
+
+
+def run_value_history(cases, res, count=True):
+    first = [vh_call(*c) for c in cases]
+    oks = oracle_batch([f[1] for f in first])
+    bad = []
+    for c, (o, rq, snap_), ok in zip(cases, first, oks):
+        if count:
+            res["evaluations"] += 1
+        kind, x, w, h, horiz = c
+        if ok != 1:
+            bad.append({"kind": "relativize-value-after-other-calls", "replay": "value-history", "input": list(c), "impl_obs": repr(o)[:300],
+                        "what": f"{kind} {x!r}.as_percentage_of(" + (f"video_{'width' if horiz else 'height'}={w if horiz else h}"
+                                                                        if kind == "size" else f"{w}, {h}")
+                                + f") -> {o!r}: not the exact percentage of its own reference (equal values were relativized "
+                                  f"against other references earlier in the process)"})
+    # every call once more, on another equal receiver, after all the other calls and in the reverse order
+    for c, f in zip(reversed(cases), reversed(first)):
+        again = vh_call(*c)[2]
+        if count:
+            res["evaluations"] += 1
+        if again != f[2]:
+            bad.append({"kind": "result-depends-on-call-history", "replay": "value-history", "input": list(c),
+                        "impl_obs": repr((f[2], again))[:300],
+                        "what": f"{c[0]} {c[1]!r}.as_percentage_of (video {c[2]}x{c[3]}) gave {f[2]!r} and, after other calls, {again!r}"})
+    return bad
+
+
+def other_value_ops(rng, n):
+    """the other value operations of the C18 streams as thunks on fresh receivers: str, from_string, hash, ==, fit_to_screen,
+    to_xml_attribute / from_xml_attribute -> [(label, input, thunk returning a comparable snapshot)]"""
+    def snap_(r):
+        return r if isinstance(r, Err) else geom.value_snap(r.v)
+    ops = []
+    for _ in range(n):
+        k = rng.randrange(7)
+        x = geom.rand_size(rng, wild=False)
+        if k == 0:
+            ops.append(("str", x, lambda x=x: str(geom.mk_size(x))))
+        elif k == 1:
+            st = str(geom.mk_size(x))
+            ops.append(("from_string", st, lambda st=st: snap_(impl.call(Size.from_string, st))))
+        elif k == 2:
+            ops.append(("hash", x, lambda x=x: hash(geom.mk_size(x))))
+        elif k == 3:
+            l = geom.rand_layout(rng, units=(2,), wild=False)
+            ops.append(("fit_to_screen", l, lambda l=l: snap_(impl.call(lambda: geom.mk_layout(l).fit_to_screen()))))
+        elif k == 4:
+            pd = tuple(geom.rand_size(rng, wild=False) for _ in range(4))
+            ops.append(("padding-attribute", pd, lambda pd=pd: snap_(impl.call(
+                lambda: Padding.from_xml_attribute(geom.mk_padding(pd).to_xml_attribute())))))
+        elif k == 5:
+            l = geom.rand_layout(rng, wild=False)
+            l2 = geom.rand_layout(rng, wild=False) if rng.random() < 0.5 else l
+            ops.append(("eq+hash", (l, l2), lambda l=l, l2=l2: (bool(geom.mk_layout(l) == geom.mk_layout(l2)),
+                                                               hash(geom.mk_layout(l)), hash(geom.mk_layout(l2)))))
+        else:
+            y = geom.rand_size(rng, wild=False)
+            ops.append(("point-attribute", (x, y), lambda x=x, y=y: geom.mk_point((x, y)).to_xml_attribute()))
+    return ops
+
+
+def stream_value_history(ctx, res):
+    """a value operation depends only on the receiver and the reference, not on the calls made before it"""
+    cases = value_history_cases(ctx.rng, ctx.n(1500, 30000))
+    ops = other_value_ops(ctx.rng, ctx.n(1500, 30000))
+    first = [f() for _, _, f in ops]
+    bad = run_value_history(cases, res)
+    nbad = 0
+    for (label, inp, f), r1 in zip(reversed(ops), reversed(first)):
+        res["evaluations"] += 2
+        r2 = f()
+        if r1 != r2 and nbad < 2:
+            nbad += 1
+            bad.append({"kind": "result-depends-on-call-history", "replay": "none", "input": [label, repr(inp)],
+                        "impl_obs": repr((r1, r2))[:300],
+                        "what": f"{label} of {inp!r} gave {r1!r} and, on an equal receiver after other calls, {r2!r}"})
+    res["distribution"]["value_history_other_operations_repeated(str, from_string, hash, ==, fit_to_screen, attributes)"] = len(ops)
+    seen = set()
+    for b in bad:
+        if b["kind"] not in seen or len(seen) < 3:
+            res["violations"].append(b)
+            seen.add(b["kind"])
+    for c in cases:
+        if c[0] != "size" or c[1][1] != 2:
+            res["nontrivial"].add(("value-history", repr(c)))
+    res["distribution"]["value_history_calls(each judged by the Coq oracle and repeated after all other calls)"] = len(cases)
+    res["distribution"]["value_history_square_or_swapped_video_cases"] = sum(1 for c in cases if c[2] == c[3] or (c[2], c[3]) in ((360, 640), (1080, 1920), (32, 15)))
+
+
 def run(ctx):
     res = {"evaluations": 0, "nontrivial": set(), "violations": [], "disagreements": [], "distribution": {},
-           "streams": 5, "notes": []}
+           "streams": 7, "notes": []}
     stream_parse(ctx, res)
     stream_print(ctx, res)
     stream_eq(ctx, res)
     stream_attr(ctx, res)
     stream_fresh(ctx, res)
+    stream_attr_print(ctx, res)
+    stream_value_history(ctx, res)
     res["rule"] = ("parse: exhaustive short strings over the alphabet %r + structured long strings (no exclusion), non-trivial = "
                    "accepted; print: value grid + random non-negative binary64 values up to 1e23 x 5 units and every value "
                    "parsed in stream A, non-trivial = not a multiple of 0.01; eq: pairs over a grid exhaustive in units/alignments/"
@@ -611,6 +847,7 @@ def run(ctx):
                     "Size.from_string accepts exactly the size language (ALL strings) and returns the denoted value; else the syntax error",
                     "printing: within 1/200, <= 2 decimals (canonical form: information); parse(print(a)) = round2(a); print o parse o print = print",
                     "padding shorthand expands in TTML order",
+                    "Point / Stretch / Padding: from_xml_attribute(to_xml_attribute(v)) = v rounded to two decimals per component, in its own slot (TTML order), and prints the same again",
                     "relativize / fit keep the components they do not recompute (definitional lemmas about the model)"],
         "correspondence_only": ["the regex engine / float() / round() / f-string formatting behind from_string and __str__",
                                 "binary64: values beyond 1.8e308 become inf (known finding C18-parse-overflow); NaN / negative values not generated",
@@ -651,6 +888,22 @@ def replay(ctx, rec):
             return True, o
         ok = oracle1(1809, [wire_val(a), wire_val(b)] + list(o))
         return ok != 1, o
+    if tag == "value-history":
+        def t2(y):
+            return tuple(t2(z) for z in y) if isinstance(y, list) else y
+        import random
+        cases = value_history_cases(random.Random(0), 0)
+        mine = tuple(t2(rec["input"]))
+        if mine not in cases:
+            cases.append(mine)
+        bad = [b for b in run_value_history(cases, {"evaluations": 0}, count=False) if b["kind"] == rec.get("kind")]
+        return bool(bad), (bad or [{"what": "ok"}])[0]["what"]
+    if tag == "attr":
+        def t(y):
+            return tuple(t(z) for z in y) if isinstance(y, list) else y
+        kind, val = rec["input"]
+        comps, p, b, rp = attr_case(kind, t(val))
+        return attr_violation(kind, comps, p, b, rp) == rec.get("kind"), repr((p, b, rp))[:300]
     if tag == "padding":
         o = obs_padding(rec["input"])
         return oracle1(1807, [rec["input"], o]) != 1, repr(o)
